@@ -20,6 +20,7 @@ ASSUMPTIONS = ['model.MN (set-based tree model written for this check) is '
                'the reference', 'lca/sibling pairs are sampled (<= 400 pairs) '
                'for trees with more than 12 nodes']
 WATCHDOG = {'quick': 600, 'thorough': 3600}
+LONG_SENTENCES = 3      # floor for the stratum the runner adds (gen.maybe_long)
 MIN = {'quick': {'distinct': 300, 'strata': {'after in-place change': 300},
                  'hooks': {'trees.children': 1000, 'trees.terminals': 1000,
                            'trees.preorder': 300, 'trees.postorder': 300,
@@ -387,6 +388,7 @@ def shard(ctx):
         rng = ctx.rng('rand', i)
         n = rng.choice([3, 5, 8, 12, 20, 30, 40]) if rng.random() < 0.5 \
             else rng.randint(1, 40)
+        n = gen.maybe_long(rng, n, 0.01)
         spec = gen.tree(rng, n, pools, max_arity=rng.choice([2, 3, 5, 8]),
                         p_unary=rng.choice([0, 0.1, 0.3]),
                         moves=rng.choice([0, 0, 1, 2, 4, 8]),
